@@ -105,6 +105,51 @@ theorem argsOrdered_of_allNamed : ∀ e s, allNamed e = true → argsOrdered s e
     | some k => simp [argsOrdered, ihr _ h.2]
   | _ => intro _ _; rfl
 
+/-! ### literal tokens -/
+
+/-- `literal_node` writes the exponent letter `d` only for `Precision.DOUBLE`, which has no kind suffix. -/
+theorem Lit.tok_std (l : Lit) : l.tok.std = true := by
+  cases l with
+  | int s d p => rfl
+  | real s d dot ex p =>
+    cases p <;> cases ex <;> simp [Lit.tok, LitTok.std, Prec.suffix]
+  | bool b p => rfl
+  | char t q p => rfl
+
+theorem litToksStd_append (a b : List Tok) : litToksStd (a ++ b) = (litToksStd a && litToksStd b) := by
+  induction a with
+  | nil => simp [litToksStd]
+  | cons t r ih => cases t <;> simp [litToksStd, ih, Bool.and_assoc]
+
+theorem litToksStd_wrap (p : Bool) (ts : List Tok) : litToksStd (wrap p ts) = litToksStd ts := by
+  cases p <;> simp [wrap, litToksStd, litToksStd_append]
+
+theorem litToksStd_signToks (s : Sign) : litToksStd s.toks = true := by
+  cases s <;> rfl
+
+theorem litToksStd_render (m : WMode) : ∀ e c, litToksStd (render m c e) = true := by
+  intro e
+  induction e with
+  | lit l =>
+    intro c
+    simp only [render]
+    split
+    · simp [litToksStd, Lit.tok_std]
+    · simp [litToksStd_wrap, litToksStd_append, litToksStd_signToks, litToksStd, Lit.tok_std]
+  | un u x ih => intro c; simp [render, litToksStd_wrap, litToksStd, ih]
+  | bin b l r ihl ihr =>
+    intro c; simp [render, litToksStd_wrap, litToksStd_append, litToksStd, ihl, ihr]
+  | part n a nx iha ihn =>
+    intro c
+    simp only [render, litToksStd, litToksStd_append]
+    cases a <;> cases nx <;> simp [litToksStd, litToksStd_append, iha, ihn]
+  | call f a ih => intro c; simp [render, litToksStd, litToksStd_append, ih]
+  | nil => intro c; rfl
+  | cons k x r ihx ihr =>
+    intro c
+    simp only [render, litToksStd_append]
+    cases k <;> cases r <;> simp [litToksStd, litToksStd_append, ihx, ihr]
+
 /-! ### the canonical form the reader produces -/
 
 /-- popping a keyword from an all-named list leaves an all-named list -/
